@@ -13,6 +13,11 @@ from .. import build
 LEVEL = "exploration"
 
 MODULES = ["c01", "c02", "c03", "c04", "c13", "c16", "c17", "c10"]
+# word-level layers (the quantifier names the input distributions of C05, C06 too; C12 for the word-size specific number
+# theory): their transcripts legitimately depend on the word size, so digests are compared among configurations of the same
+# word size only; their own value oracles decide in every configuration
+WORD_MODULES = ["c05_zz", "c05_pp", "c06", "c12"]
+W32 = ("rel32", "dbg32", "asan32")
 BASH_CFGS = ["bash32", "sse2", "avx2", "avx512"]
 SAN = ("asan:", "ubsan:", "assert:", "signal:")
 
@@ -25,11 +30,24 @@ def main(run):
     scale = 0.04 if q else 0.3
     every = {"c13": 8, "c16": 6, "c02": 5, "c17": 3, "c01": 2} if q else {"c13": 2, "c16": 2}
     base, missing = _collect(MODULES, "quick", scale, every, run.seed)
+    wbase, wmissing = _collect(WORD_MODULES, "quick", 0.03 if q else 0.15,
+                               {"c05_zz": 3, "c05_pp": 2, "c06": 8, "c12": 3} if q else {"c06": 3, "c12": 2}, run.seed)
+    wbase = [j for j in wbase if not any(x in j["unit"] for x in ("unit_stb99", "unit_pfok", "unit_gen", "unit_dates"))]
+    # always: the windows around the thresholds where priIsPrimeW switches its base sets (the switch points are word-size specific)
+    import importlib
+    thr = [dict(j) for j in importlib.import_module("vlib.checks.c12").jobs("quick", 1.0)
+           if j["unit"] == "c12:unit_primes_window" and j["params"]["hi"] - j["params"]["lo"] == 4096]
+    for j in thr:
+        j.pop("cfg", None)
+    wbase = [j for j in wbase if j not in thr] + thr
+    missing += wmissing
     cfgs = ["rel64", "rel32", "fast64", "dbg64"] if q else \
            ["rel64", "rel32", "fast64", "dbg64", "dbg32", "o1", "o2", "clangrel", "asan64"]
     js = []
     for c in cfgs:
         js += [dict(j, cfg=c) for j in base]
+        if c != "asan64":
+            js += [dict(j, cfg=c) for j in wbase]
     plat = {}
     bash_units = [j for j in base if j["unit"].startswith("c03:") and ("bash" in j["unit"] or "hash" in j["unit"] or "prg" in j["unit"])]
     bash_units += [j for j in base if j["unit"].startswith("c10:") and ("bash" in str(j["params"]) or "prg" in str(j["params"]))]
@@ -46,7 +64,10 @@ def main(run):
     run.coverage_extra["jobs_per_configuration"] = len(base)
     run.run_jobs(js, timeout=3400)
     # 1. digests against the reference configuration (first variant listed is rel64 because jobs were added in that order)
-    compared = run.compare_digests("config-diff", "configurations disagree on return codes / output octets", ref="rel64")
+    wunits = {j["unit"] for j in wbase}
+    compared = run.compare_digests("config-diff", "configurations disagree on return codes / output octets", ref="rel64",
+                                   group=lambda cfg, unit: ("w32" if cfg in W32 else "w64") if unit in wunits else "all")
+    run.coverage_extra["word_level_jobs_per_configuration"] = len(wbase)
     run.coverage_extra["cases_compared_across_configurations"] = compared
     # 2. sanitizer/assert crashes in a configuration are C07's business; functional keys are C19's only if config-specific
     tallied = {}
@@ -67,9 +88,16 @@ def main(run):
             tallied[key] = v["count"]
             del run.viol[key]
             continue
-        # functional key: re-key by configuration; drop if the reference configuration shows the same key
-        tallied[key] = v["count"]
+        # a unit's own value oracle: if the reference configuration raises the same key it is that property's matter;
+        # if only other configurations do, the function computed there is not the one computed by the reference build
         del run.viol[key]
+        cfgs = v.get("cfgs") or []
+        if cfgs and "rel64" not in cfgs:
+            v["what"] = "only in configuration(s) %s: %s" % (",".join(sorted(cfgs)), v.get("what", ""))
+            v["key"] = "config-diff:oracle:%s:%s" % ("+".join(sorted(cfgs)), key)
+            run.viol[v["key"]] = v
+        else:
+            tallied[key] = v["count"]
     run.coverage_extra["keys_tallied_for_other_properties"] = sorted(tallied)[:40]
     if compared == 0 and not run.harness_errors:
         run.harness_fail("no case was compared across configurations")
